@@ -525,7 +525,11 @@ ldl4! {
 // refactor on a used workspace == fresh factorisation
 // ------------------------------------------------------------------------------------------
 fn refactor_pattern<const N: usize>(off: u32) {
-    let (colptr, rowval) = triu_pattern::<N>(off, (1 << N) - 1);
+    refactor_pattern_diag::<N>(off, (1 << N) - 1);
+}
+
+fn refactor_pattern_diag<const N: usize>(off: u32, diag: u32) {
+    let (colptr, rowval) = triu_pattern::<N>(off, diag);
     let nnz = rowval.len();
     let v1 = any_values(nnz);
     let v2 = any_values(nnz);
@@ -571,6 +575,17 @@ pub fn c12_refactor3_dense() {
 #[kani::unwind(11)]
 pub fn c12_refactor3_arrow() {
     refactor_pattern::<3>(6);
+}
+/// stored diagonal entries (1,1) / (2,2) missing: the pivot accumulator must start from zero again
+#[kani::proof]
+#[kani::unwind(11)]
+pub fn c12_refactor3_nodiag1() {
+    refactor_pattern_diag::<3>(7, 5);
+}
+#[kani::proof]
+#[kani::unwind(11)]
+pub fn c12_refactor3_nodiag2() {
+    refactor_pattern_diag::<3>(5, 3);
 }
 
 // ------------------------------------------------------------------------------------------
